@@ -60,6 +60,11 @@ def _mk_corpus():
     # a seeded overload-heavy header of the generator the other scenarios use
     gen = common.big_header(20261002, 6).encode()
     add("gen/big.h", {"big.h": gen}, "big.h", "big.h", ["-D__cplusplus"], ["pf", "ig"])
+    # several headers on one command line: the damaged one first, followed by a header it already included (#pragma once)
+    once = b"#pragma once\nclass OnceThing {\n__published:\n  OnceThing();\n  int once_value() const;\n};\n"
+    first = b'#include "once.h"\nclass FirstThing : public OnceThing {\n__published:\n  FirstThing();\n  int first_value(int a = 3) const;\n};\nint first_function(FirstThing *t);\n'
+    add("multi/first+once", {"first.h": first, "once.h": once}, ["first.h", "once.h"], "first.h", ["-D__cplusplus"], ["pf", "ig"])
+    add("multi/first+a", {"first.h": first, "once.h": once, "a.h": a}, ["first.h", "a.h"], "first.h", ["-D__cplusplus"], ["ig"])
     nh, nn = rd(os.path.join(cd, "nfile.h")), rd(os.path.join(cd, "nfile.N"))
     add("corpus/nfile.N", {"nfile.h": nh, "nfile.N": nn}, "nfile.h", "nfile.N", ["-D__cplusplus"], ["ig"])
     add("corpus/nfile2.N", {"nfile.h": nh, "nfile.N": rd(os.path.join(cd, "nfile2.N"))}, "nfile.h", "nfile.N", ["-D__cplusplus"], ["ig"])
@@ -185,6 +190,11 @@ def generate(ctx):
                     for f in _faults_T(ent) + _faults_D(ent) + _faults_R(ent):
                         yield {"c": ci, "job": job, "build": "rel", "fault": f}
                 continue
+            if ent["size"] <= 600 and not ent["id"].startswith("parser-inc/"):
+                # small hand-written targets: every truncation point, every job, also in the quick tier
+                for job in ent["jobs"]:
+                    for f in _faults_T(ent):
+                        yield {"c": ci, "job": job, "build": "rel", "fault": f}
             for _ in range(n):
                 job = rng.choice(ent["jobs"])
                 off = rng.below(ent["size"])
@@ -255,12 +265,13 @@ def crash_site(stderr):
 
 def _argv(ent, job, kind, root):
     pinc = "-S" + common.PARSER_INC
+    mains = ent["main"] if isinstance(ent["main"], list) else [ent["main"]]
     if job == "pf":
-        return [build.tool(kind, "parse_file")] + ent["args"] + [pinc, "-Isrc", "src/" + ent["main"]]
+        return [build.tool(kind, "parse_file")] + ent["args"] + [pinc, "-Isrc"] + ["src/" + m for m in mains]
     if job == "pfe":
-        return [build.tool(kind, "parse_file"), "-E"] + ent["args"] + [pinc, "-Isrc", "src/" + ent["main"]]
+        return [build.tool(kind, "parse_file"), "-E"] + ent["args"] + [pinc, "-Isrc"] + ["src/" + m for m in mains]
     return [build.tool(kind, "interrogate"), "-oc", "out/x.cxx", "-od", "out/x.in", "-oh", "out/x.txt", "-module", "m", "-library", "libx",
-            "-python-native"] + ent["args"] + [pinc, "-srcdir", "src", ent["main"]]
+            "-python-native"] + ent["args"] + [pinc, "-srcdir", "src"] + mains
 
 
 def _run(ent, job, kind, fault, tag):
